@@ -63,7 +63,9 @@ def check(ctx):
         'x||^2 / (2 sigma) has a non-negative one-sided slope at t = 0+ '
         'along every ray d of a finite family (+-e_j, +-e_j +-e_k, +-(x - '
         'p)), the slope obtained by jet expansion of the interpreted '
-        '_call; 2x2 SVD, sort, cumsum, einsum modelled exactly.',
+        '_call; 2x2 SVD, sort, cumsum, einsum modelled exactly.  R7: the '
+        'in-place call prox(x, out=x) returns the same point as the '
+        'out-of-place call.',
         ['CPython ast', 'closed-form proximal of a convex quadratic on the '
          'weighted line', 'operator arithmetic means what the table says '
          '(C04)', 'NumPy primitives mean what the array model says',
@@ -108,6 +110,11 @@ def check(ctx):
     _liveness(rep, model)
     from . import c07b
     c07b.run(rep, model)
+    # R7: the minimiser is returned whichever way the proximal is called --
+    # also with out aliased to the input (evaluated aliased calls, shared
+    # with C10-R3 / C11-R5)
+    from . import c10b
+    c10b.run(rep, model, rule='R7', kinds=('proximal',), floor=60)
     return rep
 
 
